@@ -755,6 +755,9 @@ func constString(v ssa.Value) (string, bool) {
 // v != nil (want=false).  Values are compared modulo resolve().
 func (fa *Facts) KnownNil(b *ssa.BasicBlock, v ssa.Value, wantNil bool) bool {
 	rv := resolve(v)
+	if !wantNil && isNonNilErrValue(rv, 0) {
+		return true
+	}
 	for k := range fa.At(b) {
 		bo, ok := k.v.(*ssa.BinOp)
 		if !ok || (bo.Op != token.EQL && bo.Op != token.NEQ) {
@@ -1149,4 +1152,53 @@ func (fa *Facts) holdsRec(b *ssa.BasicBlock, pred func(factSet) bool, depth int,
 		return false
 	}
 	return true
+}
+
+// isNonNilErrValue: v is an error value that cannot be nil: a freshly built
+// error object, or the result of a constructor that always returns one
+// (fmt.Errorf, errors.New, goaterr.Errorf/NewError/Wrap/Wrapf - computed, not listed).
+var nonNilErrMemo = map[*ssa.Function]int{}
+
+func isNonNilErrValue(v ssa.Value, depth int) bool {
+	if v == nil || depth > 4 {
+		return false
+	}
+	switch x := v.(type) {
+	case *ssa.MakeInterface:
+		switch y := x.X.(type) {
+		case *ssa.Alloc:
+			return true
+		case *ssa.Call:
+			_ = y
+			return false
+		}
+		return false
+	case *ssa.Call:
+		f := x.Call.StaticCallee()
+		if f == nil || errResultIndex(f.Signature) < 0 || f.Signature.Results().Len() != 1 {
+			return false
+		}
+		switch qualName(f) {
+		case "fmt.Errorf", "errors.New":
+			return true
+		}
+		if f.Blocks == nil {
+			return false
+		}
+		if r, ok := nonNilErrMemo[f]; ok {
+			return r == 1
+		}
+		nonNilErrMemo[f] = 0
+		all := true
+		for _, r := range returnsOf(f) {
+			if !isNonNilErrValue(resolve(r.Results[0]), depth+1) {
+				all = false
+			}
+		}
+		if all && len(returnsOf(f)) > 0 {
+			nonNilErrMemo[f] = 1
+			return true
+		}
+	}
+	return false
 }
